@@ -156,6 +156,7 @@ pub fn accumulated_step(e: &mut E1, n: usize, arg: u32) {
 pub fn special_step(e: &mut E1, st: Step) {
     match st {
         Step::SnapshotRestore => snapshot_restore(e),
+        Step::Hold { n } => e.hold_ref(n as usize),
         _ => {}
     }
 }
